@@ -34,11 +34,13 @@ def _work(args):
         if t is None:
             out.append(None)
         else:
-            if li >= len(lines):
+            k = t.count("\n0\n")          # instances exported for this item
+            if li + k > len(lines):
                 return idx, metas, None, "vchk printed too few lines"
-            out.append([int(x) for x in lines[li].split()[1:]] if lines[li].startswith("#")
-                       else [int(x) for x in lines[li].split()])
-            li += 1
+            rs = [[int(x) for x in ln.split()[1:]] if ln.startswith("#")
+                  else [int(x) for x in ln.split()] for ln in lines[li:li + k]]
+            out.append(rs[0] if k == 1 else rs)
+            li += k
     return idx, metas, out, None
 
 
